@@ -101,8 +101,13 @@ def emitValues (s : WState) (needs : Bool) (size : Nat) : Option WState :=
   if needs then (emitLocation s).map fun s' => { s' with codeLen := s'.codeLen + size }
   else some { s with cur := none, codeLen := s.codeLen + size }
 
-/-- one emitted instruction as the bytecode generator drives the writer: an optional `set_location(loc)` right before
-the `emit_*` call, whether the opcode needs a location, and its encoded size -/
+/-- one emitted instruction as the bytecode generator drives the writer (`BytecodeBuilder`,
+dora-frontend/src/generator/bytecode.rs: every emitter that takes a `location` calls `set_location` immediately before
+the writer's `emit_*`, nothing else calls it): an optional `set_location(loc)` right before the `emit_*` call, whether the
+opcode needs a location, and its encoded size.
+Forward jumps (`emit_jmp_forward`) do not go through `emit_values`: they neither use nor clear `current_location`. The
+builder never sets a location before a jump and every `emit_values` leaves `current_location = None`, so a forward jump
+is the instruction `⟨none, false, size⟩` here (h_c14 emits real forward jumps inside its sequences). -/
 structure Instr where
   loc : Option Loc
   needs : Bool
